@@ -85,6 +85,8 @@ pub enum Section {
     Small(u16, bool),
     /// the highest section only: an arbitrarily long digit string without leading zero
     Long(Vec<u8>),
+    /// 1000..=9999 written with a thousands separator (1,000万; 259万2,300)
+    Grouped(u16),
 }
 
 #[derive(Clone, Debug, Serialize, Deserialize, PartialEq)]
@@ -165,7 +167,7 @@ impl Num {
                 // expected: highest section digits followed by 4-digit blocks
                 let top_unit = sections[0].1;
                 let top_digits: Vec<u8> = match &sections[0].0 {
-                    Section::Pos(v) | Section::Small(v, _) => to_digits(*v),
+                    Section::Pos(v) | Section::Small(v, _) | Section::Grouped(v) => to_digits(*v),
                     Section::Long(d) => d.clone(),
                 };
                 let mut blocks: Vec<(u32, u16)> = Vec::new();
@@ -174,6 +176,10 @@ impl Num {
                         Section::Pos(v) => render_digits(&to_digits(*v), *style, *sel >> k),
                         Section::Small(v, o) => small_form(*v, *o, *style, *sel >> k),
                         Section::Long(d) => render_digits(d, *style, *sel >> k),
+                        Section::Grouped(v) => {
+                            let d = to_digits(*v);
+                            format!("{},{}", render_digits(&d[..1], *style, *sel >> k), render_digits(&d[1..], *style, *sel >> (k + 1)))
+                        }
                     };
                     s.push_str(&piece);
                     if *unit > 0 {
@@ -181,7 +187,7 @@ impl Num {
                     }
                     if k > 0 {
                         let v = match sec {
-                            Section::Pos(v) | Section::Small(v, _) => *v,
+                            Section::Pos(v) | Section::Small(v, _) | Section::Grouped(v) => *v,
                             Section::Long(_) => 0,
                         };
                         blocks.push((*unit, v));
